@@ -387,6 +387,51 @@ def applyTuple (m : Mode) : List (Flt α) → List (Vec α) → Option (List (Ve
   | _, _ => Option.none
 end
 
+/-! ### abort classes: WHY a call aborted (`"ABORT"` = an XASSERT fired, `"ABORT:div0"` = the exact scalar divided by
+zero; floating point would continue with inf/NaN there).  Only meaningful when the corresponding `apply` is `none`;
+the harness prints the same two classes, so a constructor assertion and a later division are told apart. -/
+
+/-- slip filter: after the size assertion the only way to fail is a zero normal -/
+def SlipF.failClass (f : SlipF α) (v : List α) : String :=
+  if f.size * f.bs != v.length then "ABORT" else "ABORT:div0"
+
+/-- blocked mean filter: size assertion of `dot_blocked`, then the divisions, then the assertion of `axpy_blocked` -/
+def MeanBF.failClass (f : MeanBF α) (m : Mode) (v : List α) : String :=
+  let w := match m with
+    | .rhs | .defect => f.prim
+    | .sol | .cor => f.dual
+  if v.length != w.length then "ABORT"
+  else if f.vol.any (fun c => c = 0) then "ABORT:div0" else "ABORT"
+
+/-- global mean filter: assertions of the products, then the division by the volume, then the assertion of `axpy` -/
+def GMeanF.failClass (f : GMeanF α) (m : Mode) (v : List α) : String :=
+  let w := match m with
+    | .rhs | .defect => f.prim
+    | .sol | .cor => f.dual
+  match GMeanF.wdot f.freq f.useFreq v w with
+  | Option.none => "ABORT"
+  | some _ => if f.vol = 0 then "ABORT:div0" else "ABORT"
+
+mutual
+def Flt.failClass (m : Mode) : Flt α → Vec α → String
+  | .slip f, .leaf v => f.failClass v
+  | .meanB f, .leaf v => f.failClass m v
+  | .chain fs, v => chainFail m fs v
+  | .tuple fs, .node vs => tupleFail m fs vs
+  | _, _ => "ABORT"
+/-- the class of the first member that aborts -/
+def chainFail (m : Mode) : List (Flt α) → Vec α → String
+  | [], _ => "ABORT"
+  | f :: fs, v => match f.apply m v with
+    | Option.none => f.failClass m v
+    | some v' => chainFail m fs v'
+def tupleFail (m : Mode) : List (Flt α) → List (Vec α) → String
+  | f :: fs, v :: vs => match f.apply m v with
+    | Option.none => f.failClass m v
+    | some _ => tupleFail m fs vs
+  | _, _ => "ABORT"
+end
+
 end Apply
 
 /-- the leaves in flattening order -/
